@@ -91,9 +91,17 @@ class AndersonAcceleration:
             self._Fk[:, col] = fk - self._fkm1
             self._Gk[:, col] = gk - self._gkm1
 
-            # Solve least squares problem
-            lstsq_solution = sp.linalg.lstsq(self._Fk[:, 0:mk], fk)
-            gamma_k = lstsq_solution[0]
+            # Solve least squares problem. Changes in increments at round-off level
+            # (stagnating or converged iteration) carry no information, but would be
+            # amplified by the least squares solve and spoil the iterate; discard them.
+            round_off = np.finfo(float).eps * max(
+                np.linalg.norm(gk), np.linalg.norm(fk)
+            )
+            active = np.linalg.norm(self._Fk[:, 0:mk], axis=0) > round_off
+            gamma_k = np.zeros(mk, dtype=float)
+            if np.any(active):
+                lstsq_solution = sp.linalg.lstsq(self._Fk[:, 0:mk][:, active], fk)
+                gamma_k[active] = lstsq_solution[0]
             # Do the mixing
             xkp1 = gk - np.dot(self._Gk[:, 0:mk], gamma_k)
         else:
